@@ -87,7 +87,7 @@ func (sc *scenario) suppressed(m *msgSpec) bool { return !sc.Bounce || m.From ==
 func (sc *scenario) literal() map[string]any {
 	var ms []map[string]any
 	for _, m := range sc.Msgs {
-		ms = append(ms, map[string]any{"id": m.ID, "from": m.From, "utf8": m.UTF8, "rcpts": m.Rcpts, "original_rcpts": m.Orig})
+		ms = append(ms, map[string]any{"id": m.ID, "from": m.From, "utf8": m.UTF8, "rcpts": m.Rcpts, "original_rcpts": m.Orig, "body_size": m.BodySize})
 	}
 	return map[string]any{"kind": sc.Kind, "max_tries": sc.MaxTries, "bounce": sc.Bounce, "parallelism": sc.Parallelism, "messages": ms, "desc": sc.Desc}
 }
@@ -161,7 +161,14 @@ func msgHeaderBody(m *msgSpec) (textproto.Header, buffer.Buffer) {
 	hdr.Add("Subject", "C01 "+m.ID)
 	hdr.Add("From", "<sender@example.org>")
 	hdr.Add("Message-Id", "<"+m.ID+"@verif.example>")
-	return hdr, buffer.MemoryBuffer{Slice: []byte("line one\r\n.leading dot\r\nlast line\r\n")}
+	body := []byte("line one\r\n.leading dot\r\nlast line\r\n")
+	if m.BodySize > 0 {
+		line := []byte(strings.Repeat("0123456789abcdef", 4) + " " + m.ID + "\r\n")
+		for len(body) < m.BodySize {
+			body = append(body, line...)
+		}
+	}
+	return hdr, buffer.MemoryBuffer{Slice: body}
 }
 
 // enqueueAndWait hands every message of the scenario to a fresh queue on top
